@@ -89,6 +89,8 @@ def corpus(seed, n):
             Ts = rng.sample([273.0 + 2.5 * i for i in range(50)], k)
             if line: exps[c] = [(T, math.exp(c0 - Ea0 / (R * T)), None) for T in Ts]
             else: exps[c] = [(T, 10 ** rng.uniform(-6, 0), rng.uniform(-60e3, 120e3) if stated else None) for T in Ts]
+        if stated and rng.random() < 0.35:
+            for c in cs: exps[c] = [(T, P, 0.0) for (T, P, Ea) in exps[c]]          # a stated activation energy of exactly 0 is a stated one
         case = dict(components=cs, experiments=exps, units=rng.choice(['kg/(m2*h*kPa)', 'SI', 'GPU']) if not line else 'kg/(m2*h*kPa)', shuffle=rng.randint(0, 99),
                     queries=[rng.uniform(260, 420) for _ in range(3)] + [exps[cs[0]][0][0]])
         if line: case.update(line_Ea=Ea0, line_c0=c0)
